@@ -185,7 +185,9 @@ func (d *Decoder) decodeValue(value reflect.Value) {
 		}
 
 	case reflect.Ptr:
-		if o, ok := value.Interface().(Object); ok {
+		// pointer to enum value (uint32 based type) implements Object too, but it's not a struct: it is
+		// decoded as plain value below
+		if o, ok := value.Interface().(Object); ok && value.Type().Elem().Kind() == reflect.Struct {
 			d.decodeObject(o, false)
 		} else {
 			d.decodeValue(value.Elem())
